@@ -301,99 +301,9 @@ pub fn check_symbol(ctx: &mut Ctx, family: &str, s: &RS) {
     }
 }
 
-/// good spherical orbifold, decided from the definitions: not a tear-drop / spindle.
-/// Computed from the reference symbol: cone orders = v on loopless (0,1)/(1,2)/(0,2) orbits, corners on orbits with mirrors.
+/// good spherical orbifold, decided from the definitions: not a tear-drop / spindle
 pub fn good_spherical(s: &RS) -> bool {
-    let o = orbifold_of(s);
-    !conway::is_bad(&o)
-}
-
-/// the orbifold of a 2-dimensional symbol straight from the definitions (cones, corner
-/// lists per boundary component are not ordered here: only what the bad-orbifold test needs)
-pub fn orbifold_of(s: &RS) -> conway::Orb {
-    let mut cones = vec![];
-    let mut corners = vec![];
-    for (i, j) in [(0usize, 1usize), (1, 2), (0, 2)] {
-        let mut done = vec![false; s.n];
-        for d in 0..s.n {
-            if done[d] {
-                continue;
-            }
-            let mut has_mirror = false;
-            let mut e = d;
-            loop {
-                done[e] = true;
-                if s.ops[i][e] == e {
-                    has_mirror = true;
-                }
-                e = s.ops[i][e];
-                done[e] = true;
-                if s.ops[j][e] == e {
-                    has_mirror = true;
-                }
-                e = s.ops[j][e];
-                if e == d {
-                    break;
-                }
-            }
-            let v = s.v_any(i, j, d) as i64;
-            if v > 1 {
-                if has_mirror {
-                    corners.push(v);
-                } else {
-                    cones.push(v);
-                }
-            }
-        }
-    }
-    // handles / cross-caps / number of boundary components from chi and orientability
-    let has_boundary = s.ops.iter().any(|o| (0..s.n).any(|d| o[d] == d));
-    let orientable = s.is_bipartite();
-    // chi of the underlying surface: 2 chi_orb = K, chi_surface = chi_orb + sum cone defects
-    let (kn, kd) = s.curvature2d();
-    // chi_orb = K/2; chi_surf = chi_orb + sum (1 - 1/n) + sum (1 - 1/n)/2
-    let mut num = kn;
-    let mut den = 2 * kd;
-    let mut add = |a: i64, b: i64| {
-        num = num * b + a * den;
-        den *= b;
-        let g = gcd(num.abs(), den);
-        if g > 1 {
-            num /= g;
-            den /= g;
-        }
-    };
-    for &c in &cones {
-        add(c - 1, c);
-    }
-    for &c in &corners {
-        add(c - 1, 2 * c);
-    }
-    let chi_surf = if den == 1 { num } else { num / den };
-    // number of boundary components: components of the graph of mirror-carrying orbits; for the bad-orbifold test we
-    // only need: sphere (chi 2, no boundary), disk (chi 1, one boundary, orientable)
-    let mut o = conway::Orb { cones, bnds: vec![], handles: 0, caps: 0 };
-    if has_boundary {
-        // count boundary components = components of chambers adjacent to mirrors under the two non-mirror... approximate through chi:
-        // disk: chi 1 orientable; annulus: chi 0 orientable; Moebius: chi 0 non-orientable
-        if chi_surf == 1 && orientable_quotient(s) {
-            o.bnds.push(corners);
-        } else {
-            // not a disk: never "bad"
-            o.bnds.push(corners);
-            o.handles = 1;
-        }
-    } else if chi_surf == 2 && orientable {
-        // sphere
-    } else {
-        o.caps = 1; // anything else is never "bad"
-    }
-    o
-}
-
-/// underlying surface with boundary is orientable: the chamber graph without mirror loops is bipartite
-fn orientable_quotient(s: &RS) -> bool {
-    s.is_bipartite()
+    !conway::is_bad(&conway::orbifold_of(s))
 }
 
 fn run(ctx: &mut Ctx) {
